@@ -1,9 +1,159 @@
 package orch
 
-import "fmt"
+import (
+	"encoding/json"
+	"fmt"
+	"os"
+	"path/filepath"
+	"sync"
+	"time"
 
-// SelfTest runs the determinism self-test.
+	"verifsim/world"
+)
+
+// DetResult summarises the determinism self-test.
+type DetResult struct {
+	Cases            int            `json:"cases"`
+	RunsPerCase      int            `json:"runs_per_case"`
+	OutcomeIdentical int            `json:"outcome_identical_cases"`
+	OrderIdentical   int            `json:"order_identical_cases"`
+	SeamIdentical    int            `json:"seamlog_identical_cases"`
+	Divergent        []string       `json:"divergent_samples,omitempty"`
+	ByProperty       map[string]int `json:"cases_by_generator"`
+	WallS            float64        `json:"wall_s"`
+}
+
+// SelfTest runs the determinism self-test: each case is executed in several
+// fresh processes and verdict, row digests, the ordered seam-event sequence
+// and the timestamped seam log are compared.
 func SelfTest(args []string) int {
-	fmt.Println("selftest: not yet implemented")
+	smoke := false
+	for _, a := range args {
+		if a == "--smoke" {
+			smoke = true
+		}
+	}
+	ncase, runs := 48, 8
+	if smoke {
+		ncase, runs = 6, 3
+	}
+	res := RunDeterminism(ncase, runs, 12345)
+	b, _ := json.MarshalIndent(res, "", " ")
+	fmt.Println(string(b))
+	if !smoke {
+		os.MkdirAll(filepath.Join(Verif, "selftest"), 0o755)
+		os.WriteFile(filepath.Join(Verif, "selftest", "determinism.json"), b, 0o644)
+	}
+	if res.OutcomeIdentical != res.Cases {
+		fmt.Println("selftest: OUTCOME NONDETERMINISM detected")
+		return 2
+	}
 	return 0
+}
+
+// RunDeterminism measures replay fidelity.
+func RunDeterminism(ncase, runs int, seed uint64) *DetResult {
+	start := time.Now()
+	res := &DetResult{Cases: 0, RunsPerCase: runs, ByProperty: map[string]int{}}
+	var gens []string
+	for k := range Generators {
+		gens = append(gens, k)
+	}
+	sortStrings(gens)
+	type job struct {
+		prop string
+		c    *world.Case
+	}
+	var jobs []job
+	for i := 0; len(jobs) < ncase && i < ncase*4; i++ {
+		prop := gens[i%len(gens)]
+		c := Generators[prop](seed, i)
+		if c == nil {
+			continue
+		}
+		jobs = append(jobs, job{prop, c})
+		res.ByProperty[prop]++
+	}
+	res.Cases = len(jobs)
+	outs := make([][]*world.Outcome, len(jobs))
+	for i := range outs {
+		outs[i] = make([]*world.Outcome, runs)
+	}
+	Pool(16, len(jobs)*runs, func(k int) {
+		i, r := k/runs, k%runs
+		c := cloneCase(jobs[i].c)
+		c.WantEvents = true
+		outs[i][r] = RunCase(c, RunOpts{})
+	})
+	var mu sync.Mutex
+	for i := range jobs {
+		okOut, okOrd, okSeam := true, true, true
+		for r := 1; r < runs; r++ {
+			a, b := outs[i][0], outs[i][r]
+			if a.Verdict != b.Verdict || a.Class != b.Class || stepsKey(a) != stepsKey(b) {
+				okOut = false
+			}
+			if a.OrderSHA != b.OrderSHA {
+				okOrd = false
+			}
+			if a.SeamSHA != b.SeamSHA {
+				okSeam = false
+			}
+		}
+		mu.Lock()
+		if okOut {
+			res.OutcomeIdentical++
+		}
+		if okOrd {
+			res.OrderIdentical++
+		}
+		if okSeam {
+			res.SeamIdentical++
+		}
+		if (!okOut || !okOrd) && len(res.Divergent) < 5 {
+			res.Divergent = append(res.Divergent, describeDivergence(jobs[i].prop, jobs[i].c, outs[i]))
+		}
+		mu.Unlock()
+	}
+	res.WallS = time.Since(start).Seconds()
+	return res
+}
+
+func describeDivergence(prop string, c *world.Case, outs []*world.Outcome) string {
+	a := outs[0]
+	for _, b := range outs[1:] {
+		if a.OrderSHA == b.OrderSHA && a.Verdict == b.Verdict {
+			continue
+		}
+		n := len(a.Events)
+		if len(b.Events) < n {
+			n = len(b.Events)
+		}
+		for k := 0; k < n; k++ {
+			if stripTime(a.Events[k]) != stripTime(b.Events[k]) {
+				return fmt.Sprintf("%s seed=%d executor=%s: verdicts %s/%s; first diverging event #%d: %q vs %q", prop, c.Seed, c.Config.Executor, a.Verdict, b.Verdict, k, a.Events[k], b.Events[k])
+			}
+		}
+		return fmt.Sprintf("%s seed=%d executor=%s: verdicts %s/%s; logs differ in length %d vs %d", prop, c.Seed, c.Config.Executor, a.Verdict, b.Verdict, len(a.Events), len(b.Events))
+	}
+	return ""
+}
+
+func stripTime(e string) string {
+	for i := 0; i < len(e); i++ {
+		if e[i] == ' ' {
+			return e[i+1:]
+		}
+	}
+	return e
+}
+
+func sortStrings(s []string) {
+	for i := range s {
+		for j := i + 1; j < len(s); j++ {
+			if s[j] < s[i] {
+				s[i], s[j] = s[j], s[i]
+			}
+		}
+	}
 }
